@@ -231,8 +231,9 @@ Definition node_panics (e : sexpr) (st : rstate) : Prop :=
     exists v1 st1 v2 st2,
       eval hosts off l st = (Ok v1, st1) /\ eval hosts off r st1 = (Ok v2, st2) /\
       is_eq_op op = true /\ uncomparable v1 v2 = true            (* == != === !== on two arrays, two maps, the same function *)
-  | SSel a _ _ _ =>
-    exists t st1, eval hosts off a st = (Ok (VTime t), st1)     (* field of a struct without that field *)
+  | SSel a _ name _ =>                                          (* field of a struct without that field *)
+    (exists t st1, eval hosts off a st = (Ok (VTime t), st1)) \/
+    (exists id fs st1, eval hosts off a st = (Ok (VStruct id fs), st1) /\ assoc name fs = None)
   | SCall f args sp =>
     exists fv st1 vs st2,
       eval hosts off f st = (Ok fv, st1) /\ is_name_path f = true /\
@@ -241,13 +242,20 @@ Definition node_panics (e : sexpr) (st : rstate) : Prop :=
   | _ => False
   end.
 
+Lemma node_panics_selector : forall a nk name asrt st,
+  node_panics (SSel a nk name asrt) st <->
+  (exists t st1, eval hosts off a st = (Ok (VTime t), st1)) \/
+  (exists id fs st1, eval hosts off a st = (Ok (VStruct id fs), st1) /\ assoc name fs = None).
+Proof. intros a nk name asrt st. reflexivity. Qed.
+
 Lemma node_panics_sound : forall e st, node_panics e st -> fst (eval hosts off e st) = Panic.
 Proof.
   intros e st H. destruct e; try contradiction H.
   - destruct H as (v1 & st1 & v2 & st2 & Hl & Hr & Hop & Hu).
     exact (proj1 (compare_uncomparable hosts off e1 op e2 st v1 st1 v2 st2 Hop Hl Hr Hu)).
-  - destruct H as (t & st1 & Ha).
-    exact (proj1 (member_of_struct_missing_field hosts off e nk name assert st t st1 Ha)).
+  - destruct H as [(t & st1 & Ha)|(id & fs & st1 & Ha & Hn)].
+    + exact (proj1 (member_of_struct_missing_field hosts off e nk name assert st t st1 Ha)).
+    + exact (proj1 (member_of_go_struct_missing_field hosts off e nk name assert st id fs st1 Ha Hn)).
   - destruct H as (fv & st1 & vs & st2 & Hf & Hn & Ha & Hc).
     rewrite (call_node hosts off e args spread st fv st1 vs st2 Hf Hn Ha). apply fmt_fst_panic. exact Hc.
 Qed.
@@ -327,8 +335,11 @@ Proof.
     rewrite eval_SSel in H. apply fmt_fst_inv_panic in H.
     destruct (eval hosts off a st) as [[v| | |] st1] eqn:Ea; cbn [fst] in H; try discriminate H.
     + destruct (is_null v && asrt); [discriminate H|]. cbn [fst] in H.
-      destruct v; try discriminate H.
-      exists (SSel a nk name asrt), st. split; [apply sub_refl|]. exists t, st1. exact Ea.
+      destruct v as [| | | |t| | | | | | | | | |id fs]; try discriminate H.
+      * exists (SSel a nk name asrt), st. split; [apply sub_refl|]. left. exists t, st1. exact Ea.
+      * destruct (assoc name fs) as [x|] eqn:En; [discriminate H|].
+        exists (SSel a nk name asrt), st. split; [apply sub_refl|]. right.
+        exists id, fs, st1. split; [exact Ea|exact En].
     + apply (source_of_child _ a); [left; reflexivity|]. apply (IHa st). rewrite Ea. reflexivity.
   - (* SSelMissing *)
     rewrite eval_SSelMissing in H. apply fmt_fst_inv_panic in H.
